@@ -203,10 +203,11 @@ type c04Conn struct {
 	mu   sync.Mutex
 	cond *sync.Cond
 
-	closed     bool
-	closeErr   bool // Close closes and reports an error (tls-like)
-	closeCalls int
-	phase      int
+	closed      bool
+	closeErr    bool // Close closes and reports an error (tls-like)
+	cancelFails bool // free runs: the write of the one-byte Cancel packet fails
+	closeCalls  int
+	phase       int
 
 	// inbound
 	rbuf    []byte // delivered and not yet read (Read with a small p)
@@ -388,6 +389,10 @@ func (c *c04Conn) Write(p []byte) (int, error) {
 	defer c.mu.Unlock()
 	if c.closed {
 		return 0, &net.OpError{Op: "write", Net: "mem", Err: net.ErrClosed}
+	}
+	if phase == 1 && kind == "wcancel" && c.cancelFails {
+		// the outbound path is already broken when the caller gives up: the Cancel byte cannot be written
+		return c.record(cp, 0, errors.New("c04: injected failure of the Cancel write"), phase, c.cancelled)
 	}
 	if phase == 1 && kind == "write" && c.wfaultAt == c.dataW+c.failedW() {
 		return c.record(cp, c.wfaultN, errors.New("c04: injected write failure"), phase, c.cancelled)
